@@ -234,6 +234,22 @@ Fixpoint quit_loop (now : Z) (all bang : bool) (bufs : list buf) (fs : fsys) (sc
       end
     else quit_loop now all bang rest fs sch
   end.
+(* the records of bufs[] after that loop (ex.c since 37c81b2): in the `a` loop a save that returned no error is followed by
+   lbuf_saved(b->lb, 0); b->mtime = mtime(b->path); -- and only then; where the loop stops everything is as it was *)
+Fixpoint quit_marks (now : Z) (all bang : bool) (bufs : list buf) (fs : fsys) (sch : list outcome) : list buf :=
+  match bufs with
+  | [] => []
+  | bf :: rest =>
+    if negb all && negb bang && b_dirty bf then bufs
+    else if all then
+      let '(st, fs', r) := lbuf_save now (b_lines bf) 0 (length (b_lines bf)) (b_path bf) bang (b_mtime bf) fs sch in
+      match st with
+      | SOk => {| b_lines := b_lines bf; b_path := b_path bf; b_mtime := fs_mtime fs' (b_path bf); b_dirty := false |}
+               :: quit_marks now all bang rest fs' r
+      | _ => bufs
+      end
+    else bf :: quit_marks now all bang rest fs sch
+  end.
 (* ec_quit for q, q!, wq, wq!, x, x!, xa, xa!  (wr = cmd[0] is w or x) *)
 Definition ec_quit (now : Z) (wr isx all bang : bool) (bufs : list buf) (fs : fsys) (sch : list outcome)
   : bool * status * list buf * fsys * list outcome :=
@@ -243,8 +259,9 @@ Definition ec_quit (now : Z) (wr isx all bang : bool) (bufs : list buf) (fs : fs
     if wr then
       let '(st, b0', fs', r) := ec_write now isx bang None (b_path b0) b0 fs sch in
       match st with
-      | SOk => let '(q, st2, fs2, r2) := quit_loop now all bang (b0' :: rest) fs' r in (q, st2, b0' :: rest, fs2, r2)
+      | SOk => let '(q, st2, fs2, r2) := quit_loop now all bang (b0' :: rest) fs' r in
+               (q, st2, quit_marks now all bang (b0' :: rest) fs' r, fs2, r2)
       | _ => (false, st, bufs, fs', r)
       end
-    else let '(q, st2, fs2, r2) := quit_loop now all bang bufs fs sch in (q, st2, bufs, fs2, r2)
+    else let '(q, st2, fs2, r2) := quit_loop now all bang bufs fs sch in (q, st2, quit_marks now all bang bufs fs sch, fs2, r2)
   end.
